@@ -1,6 +1,7 @@
 package sim
 
 import (
+	"archive/tar"
 	"bytes"
 	"crypto/sha256"
 	"errors"
@@ -135,6 +136,7 @@ func init() {
 			c.P["index_absent"] = int64(r.IntN(4) / 3)
 			c.P["rofail"] = int64([]int{0, 0, 1, 2}[r.IntN(4)])
 			c.P["stale"] = int64(r.IntN(3) / 2)
+			c.P["torntail"] = int64(r.IntN(4) / 3)
 			_ = u
 			return c
 		},
@@ -158,6 +160,17 @@ func evalC15(t *testing.T, c *Case, st *Stats, relax Relax) *Violation {
 		}
 		x.Ex.CloseAll()
 		x.St.Close()
+		// (optionally the tape ends in an incomplete block, as a crash in the middle of an append leaves it:
+		// a read-only instance reads around it, it never "repairs" it)
+		if c.Param("torntail", 0) == 1 {
+			if f, err := os.OpenFile(x.W.Drive, os.O_APPEND|os.O_WRONLY, 0o600); err == nil {
+				var hb bytes.Buffer
+				tw := tar.NewWriter(&hb)
+				tw.WriteHeader(&tar.Header{Typeflag: tar.TypeReg, Name: "/torn-by-a-crash", Size: 2000, Mode: 0o644, Format: tar.FormatPAX, PAXRecords: map[string]string{"STFS.Action": "CREATE"}})
+				f.Write(hb.Bytes()[:300+int(c.Seed%200)])
+				f.Close()
+			}
+		}
 		// 2. writable twin over copies
 		tape0, _ := os.ReadFile(x.W.Drive)
 		td, err := x.W.PrefixDrive(tape0, len(tape0))
